@@ -699,3 +699,209 @@ func c20ClampByConstantOnly(c *Ctx) {
 	}
 	c.Ob(rule, "bufanalysis/components-independent", token.NoPos, len(mixed) == 0, true, "no min/max relates two position components (%d min/max calls over positions): %v", n, mixed)
 }
+
+// ---- C03/C04 (after round-6 seeds C03-q, C04-p) --------------------------------------------------------------------
+
+// c03CompareFirst (COMPARE-FIRST): a "same value" helper is handed the current and the previous value and reports when
+// they differ. Whether there is a source location to point at (images built without source info have none) or whether
+// the current value is empty (the package statement was removed) decides where the annotation points, never whether
+// the comparison takes place. In the breaking-rule handlers, a function that compares two of its own parameters with
+// == / != returns success only after that comparison.
+func c03CompareFirst(c *Ctx, rule string, pk *packages.Package) {
+	c.Rule(rule, "a helper that compares two of its parameters does so before any success return", 1)
+	p := c.P
+	n := 0
+	for _, sf := range p.SSAFuncsOf([]*packages.Package{pk}) {
+		var cmp *ssa.BinOp
+		for _, b := range sf.Blocks {
+			for _, ins := range b.Instrs {
+				bo, ok := ins.(*ssa.BinOp)
+				if !ok || (bo.Op != token.EQL && bo.Op != token.NEQ) {
+					continue
+				}
+				px, okx := stripConv(bo.X).(*ssa.Parameter)
+				py, oky := stripConv(bo.Y).(*ssa.Parameter)
+				if okx && oky && px != py && types.Identical(px.Type(), py.Type()) && !isBoolType(px.Type()) {
+					if cmp == nil || bo.Block().Dominates(cmp.Block()) {
+						cmp = bo
+					}
+				}
+			}
+		}
+		if cmp == nil {
+			continue
+		}
+		n++
+		var early []string
+		for _, r := range returnsOf(sf) {
+			success := true
+			for _, res := range r.Results {
+				if isErrorType(res.Type()) && !isNilConst(spilledResult(r, res)) {
+					success = false
+				}
+			}
+			if success && !cmp.Block().Dominates(r.Block()) {
+				early = append(early, p.Pos(r.Pos()))
+			}
+		}
+		c.Ob(rule, ssaFuncName(sf)+"/"+cmp.X.Name()+"-"+cmp.Y.Name(), cmp.Pos(), len(early) == 0, true, "every success return comes after the comparison of %s with %s (returns before it: %v)", cmp.X.Name(), cmp.Y.Name(), early)
+	}
+	if n == 0 {
+		c.Fail(rule, "anchor", token.NoPos, "no helper comparing two of its parameters found")
+	}
+}
+
+// c03ReservedMeansReserved (RESERVED-MEANS-RESERVED; C03, after round-6 seed C03-r): "unless the number is reserved"
+// means listed in a `reserved` statement. An extension range is the opposite of a reservation: it invites other files
+// to use the number, with any type. Wherever the handlers ask NumberInReservedRanges / NameInReservedNames, the
+// ranges and names they pass come from the Reserved… accessors of the element and from nothing else.
+func c03ReservedMeansReserved(c *Ctx, rule string, pk *packages.Package) {
+	c.Rule(rule, "the reservation exemptions consult the element's reserved ranges and names only", 2)
+	p := c.P
+	n := 0
+	for _, sf := range p.SSAFuncsOf([]*packages.Package{pk}) {
+		for _, f := range allSSAFuncs(sf) {
+			k := 0
+			for _, call := range callsIn(f) {
+				o := staticCalleeObj(call.Call)
+				if o == nil || (o.Name() != "NumberInReservedRanges" && o.Name() != "NameInReservedNames") || len(call.Call.Args) < 2 {
+					continue
+				}
+				n++
+				k++
+				var other []string
+				reserved := false
+				for _, a := range call.Call.Args[1:] {
+					sliceBack(a, func(x ssa.Value) bool {
+						if cl, ok := x.(*ssa.Call); ok && cl.Call.IsInvoke() {
+							nm := cl.Call.Method.Name()
+							switch {
+							case strings.HasPrefix(nm, "Reserved"):
+								reserved = true
+							case strings.Contains(nm, "Range") || strings.Contains(nm, "Names") || strings.Contains(nm, "Extension"):
+								other = append(other, nm)
+							}
+						}
+						return true
+					})
+				}
+				c.Ob(rule, fmt.Sprintf("%s/%s#%d", ssaFuncName(f), o.Name(), k), call.Pos(), reserved && len(other) == 0, true, "the list searched comes from a Reserved… accessor (%v) and from no other range/name accessor: %v", reserved, uniq(other))
+			}
+		}
+	}
+	if n == 0 {
+		c.Fail(rule, "anchor", token.NoPos, "no reservation lookup found")
+	}
+}
+
+// ---- C08 (after round-6 seed C08-p) --------------------------------------------------------------------------------
+
+// c08DigestStateless (DIGEST-STATELESS): a digest "depends on exactly the set of (path, content) pairs": not on what the
+// process hashed before. The functions reachable from the digest entry points hold no memory between calls: they
+// neither write a package-level variable nor call a method on one (a package-level sync.Map or cache keyed by local
+// path, size and mtime answers for bytes it has not read).
+func c08DigestStateless(c *Ctx) {
+	const rule = "DIGEST-STATELESS"
+	c.Rule(rule, "digest computation keeps no state between calls: no package-level variable is written or used as a cache", 2)
+	p := c.P
+	n := 0
+	for _, name := range []string{"getB4Digest", "getFilesDigestForB5Digest", "getB5DigestForBucketAndModuleDeps"} {
+		fr := p.Func("private/bufpkg/bufmodule", name)
+		if fr == nil || fr.Obj == nil {
+			continue
+		}
+		n++
+		var state []string
+		for _, f := range reachSSAWithValues(p.SSAFunc(fr.Obj), 3) {
+			if f.Pkg != nil {
+				rel := relPkg(f.Pkg.Pkg.Path())
+				if rel != "private/bufpkg/bufmodule" && rel != "private/bufpkg/bufcas" && rel != "private/pkg/shake256" {
+					continue
+				}
+			}
+			for _, b := range f.Blocks {
+				for _, ins := range b.Instrs {
+					switch t := ins.(type) {
+					case *ssa.Store:
+						if g, ok := t.Addr.(*ssa.Global); ok {
+							state = append(state, "write of "+g.Name()+" in "+f.Name())
+						}
+					case *ssa.MapUpdate:
+						if u, ok := stripConv(t.Map).(*ssa.UnOp); ok {
+							if g, ok := u.X.(*ssa.Global); ok {
+								state = append(state, "map store into "+g.Name()+" in "+f.Name())
+							}
+						}
+					case *ssa.Call:
+						if !t.Call.IsInvoke() && len(t.Call.Args) > 0 {
+							if g, ok := t.Call.Args[0].(*ssa.Global); ok && t.Call.StaticCallee() != nil && t.Call.StaticCallee().Signature.Recv() != nil {
+								state = append(state, "method "+t.Call.StaticCallee().Name()+" on "+g.Name()+" in "+f.Name())
+							}
+						}
+					}
+				}
+			}
+		}
+		c.Ob(rule, name+"/no-state", fr.Decl.Pos(), len(state) == 0, true, "package-level state touched on the way: %v", uniq(state))
+	}
+	if n == 0 {
+		c.Fail(rule, "anchor", token.NoPos, "digest entry points not found")
+	}
+}
+
+// ---- C15/C09 (after round-6 seed C15-p) ----------------------------------------------------------------------------
+
+// c15PutAllGiven (PUT-ALL-GIVEN): a store's Put… method that is handed a list stores every element of it or returns an
+// error - "it never reports success while output is missing". In the cache store packages, the per-element put inside
+// the loop of an exported Put… method is not guarded by a membership test in a set made in the same method: a set keyed
+// by less than the element's identity (module name without commit) silently drops the second commit of a module.
+func c15PutAllGiven(c *Ctx) {
+	const rule = "PUT-ALL-GIVEN"
+	c.Rule(rule, "a store's Put… method puts every element it was handed", 2)
+	p := c.P
+	n := 0
+	for _, pk := range p.ModulePkgs() {
+		rel := relPkg(pk.PkgPath)
+		if !strings.HasSuffix(rel, "store") || !strings.HasPrefix(rel, "private/bufpkg/") {
+			continue
+		}
+		for _, sf := range p.SSAFuncsOf([]*packages.Package{pk}) {
+			if sf.Signature.Recv() == nil || !strings.HasPrefix(sf.Name(), "Put") {
+				continue
+			}
+			k := 0
+			for _, call := range callsIn(sf) {
+				callee := call.Call.StaticCallee()
+				if callee == nil || callee.Pkg != sf.Pkg || !strings.HasPrefix(strings.ToLower(callee.Name()), "put") {
+					continue
+				}
+				inLoop := false
+				for _, h := range sf.Blocks {
+					if l := loopBlocks(h); l != nil && l[call.Instr.Block()] {
+						inLoop = true
+					}
+				}
+				if !inLoop {
+					continue
+				}
+				n++
+				k++
+				var sets []string
+				for _, ge := range guardingEdges(call.Instr.Block()) {
+					sliceBack(ge.If.Cond, func(x ssa.Value) bool {
+						if lk, ok := x.(*ssa.Lookup); ok {
+							if mm, ok := stripConv(lk.X).(*ssa.MakeMap); ok && mm.Parent() == sf {
+								sets = append(sets, "map made at "+p.Pos(mm.Pos()))
+							}
+						}
+						return true
+					})
+				}
+				c.Ob(rule, fmt.Sprintf("%s/%s#%d", ssaFuncName(sf), callee.Name(), k), call.Pos(), len(sets) == 0, true, "every element reaches %s (membership tests in a local set guarding it: %v)", callee.Name(), uniq(sets))
+			}
+		}
+	}
+	if n == 0 {
+		c.Fail(rule, "anchor", token.NoPos, "no per-element put in a loop of a store's Put… method found")
+	}
+}
